@@ -16,6 +16,17 @@ def fmt_terms(terms, limit=3):
     novar = [x for x in xs if not re.search(r"\bvar\b", x)]
     if novar:
         xs = novar          # a named local that merely aliases a described value adds nothing
+    if len(xs) > 1:
+        # `f(_, _, x)` next to `f(a, _, x)`: the same value described with fewer known arguments adds nothing
+        def general(x, y):
+            if x == y or "_" not in x:
+                return False
+            marked = re.sub(r"(?<=[(\s])_(?=[,)])", "\x00", x)
+            if "\x00" not in marked:
+                return False
+            rx = re.escape(marked).replace("\x00", ".+?").replace(re.escape("\x00"), ".+?")
+            return re.fullmatch(rx, y) is not None
+        xs = [x for x in xs if not any(general(x, y) for y in xs)]
     if xs and all(isinstance(t, tuple) and t[0] == "const" for t in terms):
         limit = 16          # a set of literals (e.g. the characters of a `contains([..])` test) is kept whole
     return "|".join(xs[:limit]) if xs else "?"
@@ -219,9 +230,20 @@ def switch_desc(b, S, sb, taken):
     if is_other:
         others = sorted(v for v, _ in t["ts"])
         if len(others) == 1 and subj.startswith("discr(") and disc_names:
-            return "%s != %s" % (subj, disc_names.get(others[0], others[0]))
+            return two_variant("%s != %s" % (subj, disc_names.get(others[0], others[0])))
         return "%s not in {%s}" % (subj, ",".join(others))
-    return "%s == %s" % (subj, "|".join(vals))
+    return two_variant("%s == %s" % (subj, "|".join(vals)))
+
+
+TWO = {"Err": "Ok", "None": "Some", "Break": "Continue"}
+
+
+def two_variant(g):
+    """Result / Option / ControlFlow have two variants: `== Err` is `!= Ok` (one canonical variant per type)"""
+    m = re.fullmatch(r"(discr\(.*\)) (==|!=) (Err|None|Break)", g)
+    if m:
+        return "%s %s %s" % (m.group(1), "!=" if m.group(2) == "==" else "==", TWO[m.group(3)])
+    return g
 
 
 _variants = {}
